@@ -1,9 +1,10 @@
 #!/venv/bin/python
-"""tools/keep_seed2.py <PID> <variant a|b> <new suffix c|d> <detected-by text>: keep a second-round seeded change from /tmp/seed2/<PID>/_seed/<variant> as /verif/seeded/<PID><suffix>/"""
+"""tools/keep_seed2.py <PID> <variant a|b> <new suffix c|d> <detected-by text>: keep a second-round seeded change from <root=/tmp/seed3>/<PID>/_seed/<variant> as /verif/seeded/<PID><suffix>/"""
 import json, shutil, sys
 from pathlib import Path
 pid, var, suffix, detected = sys.argv[1:5]
-src = Path(f"/tmp/seed2/{pid}/_seed/{var}")
+root = sys.argv[5] if len(sys.argv) > 5 else "/tmp/seed3"
+src = Path(f"{root}/{pid}/_seed/{var}")
 dst = Path(f"/verif/seeded/{pid}{suffix}")
 dst.mkdir(parents=True, exist_ok=True)
 for f in ("patch.diff", "demo.py"):
